@@ -213,10 +213,82 @@ class World:
         return True
 
 
+# POSIX TZ strings (no zoneinfo files needed): the age of an entry is a difference of two instants and
+# cannot depend on the zone the server runs in
+ZONES = ["UTC0", "JST-9", "CET-1CEST,M3.5.0,M10.5.0/3", "EST5EDT,M3.2.0,M11.1.0", "NST3:30", "<+14>-14", "<-11>11"]
+
+
+def set_zone(tz: typing.Optional[str]) -> None:
+    import time
+    if tz is None:
+        os.environ.pop("TZ", None)
+    else:
+        os.environ["TZ"] = tz
+    time.tzset()
+
+
+def archive_member_named_like_cache(chk: Check, sc: Scratch) -> None:
+    """An archive that holds a member called like the directory cache file (what `zip -r` of a served
+    directory produces): it is a member like any other, never the cache of the archive's listing."""
+    import datetime
+    import io
+    import zipfile
+    work = sc.sub("zc-work")
+    Tree().file("docs/a.txt", "a\n").file("docs/old.txt", "old\n").materialize(work)
+    s0 = driver.Site(work, handlers=driver.HANDLERS_FULL, overrides={("handlers.dir.DirHandler", "cachetime"): str(LIFETIME)})
+    try:
+        s0.request(reqs.render("gopher", b"/docs")[0])
+        cp = os.path.join(work, "docs", CACHEFILE)
+        if not os.path.exists(cp):
+            chk.note_inconclusive("no cache file to pack into the archive")
+            return
+        stale = open(cp, "rb").read()
+    finally:
+        s0.close()
+    now = datetime.datetime.now()
+    for k, (lifetime, shift) in enumerate([(LIFETIME, 0), (LIFETIME, -600), (0, 9 * 3600), (LIFETIME, 14 * 3600), (0, 0)]):
+        stamp = (now + datetime.timedelta(seconds=shift)).timetuple()[:6]
+        replies = {}
+        for which in ("with-lookalike", "without"):
+            bio = io.BytesIO()
+            with zipfile.ZipFile(bio, "w") as z:
+                for name, data in (("a.txt", b"a\n"), ("new.txt", b"new\n"), ("sub/b.txt", b"b\n")):
+                    z.writestr(zipfile.ZipInfo(name, stamp), data)
+                if which == "with-lookalike":
+                    z.writestr(zipfile.ZipInfo(CACHEFILE, stamp), stale)
+                    z.writestr(zipfile.ZipInfo("sub/" + CACHEFILE, stamp), stale)
+            root = sc.sub("zc-%d-%s" % (k, which))
+            Tree().file("docs.zip", bio.getvalue()).materialize(root)
+            site = driver.Site(root, handlers=driver.HANDLERS_FULL, overrides={("handlers.dir.DirHandler", "cachetime"): str(lifetime)})
+            try:
+                out = []
+                for sel in (b"/docs.zip", b"/docs.zip/sub"):
+                    for view in ("gopher", "http", "gopherp$", "gopher"):
+                        req, tls = reqs.render(view, sel)
+                        out.append((view, sel, validate.normalize_ts(site.request(req, tls=tls).data)))
+                replies[which] = out
+            finally:
+                site.close()
+                shutil.rmtree(root, ignore_errors=True)
+        for (view, sel, a), (_, _, b) in zip(replies["with-lookalike"], replies["without"]):
+            chk.count("archive_listings_compared")
+            if a != b:
+                chk.witness("C10/archive-member-used-as-directory-cache",
+                            {"lifetime": lifetime, "member_stamp_shift_seconds": shift, "view": view, "selector": sel,
+                             "with_lookalike": a[:300], "without": b[:300]})
+                return
+        chk.case(("archive-lookalike", lifetime, shift), {"lifetime": lifetime, "shift": shift})
+    shutil.rmtree(work, ignore_errors=True)
+
+
 def run_history(chk: Check, sc: Scratch, idx: int) -> None:
     hl_name, hl = [("umn", None), ("plain", driver.HANDLERS_PLAINDIR)][idx % 2]
     lifetime = 0 if idx % 5 == 4 else LIFETIME
+    zone = ZONES[idx % len(ZONES)]
+    set_zone(zone)
+    chk.count("histories_in_zone:" + zone.split(",")[0])
     w = World(chk, sc, idx, hl, lifetime)
+    w.trace.append("TZ=" + zone)
     try:
         n = w.rng.randrange(12, 41)
         for _ in range(n):
@@ -233,6 +305,7 @@ def run_history(chk: Check, sc: Scratch, idx: int) -> None:
                 w.op_age()
         chk.count("histories_completed")
     finally:
+        set_zone(None)
         w.close()
         shutil.rmtree(w.root, ignore_errors=True)
         shutil.rmtree(w.twin, ignore_errors=True)
@@ -247,6 +320,7 @@ def main() -> int:
         with Scratch("c10") as sc:
             for i in range(80 if quick else 400):
                 run_history(chk, sc, i)
+            archive_member_named_like_cache(chk, sc)
     if chk.counters.get("hits_verified", 0) < 50 and not chk.witnesses:
         chk.note_inconclusive("fewer than 50 cache hits were observed")
     return chk.finish(
@@ -254,7 +328,9 @@ def main() -> int:
              "sidecar, age the cache entry by 50/400/990/1010/3000 s, request through one of 9 views) on 1-3 directories; "
              "the clock is advanced by moving every timestamp under the root back; the cache model decides hit/miss; hit = bytes recorded (per protocol, from a lifetime-0 twin copy) when the "
              "entry was written and unchanged cache file mtime; miss = uncached rendering of the current directory. "
-             "distinct = (hit/miss, view, view that wrote the entry, age bucket, lifetime)",
+             "distinct = (hit/miss, view, view that wrote the entry, age bucket, lifetime); each history runs in one of 7 "
+             "time zones (TZ + tzset); plus archives holding members named like the cache file, stamped now / in the "
+             "past / in the future, compared with the same archive without them",
         assumptions=["decisions closer than 10 s to the lifetime are not probed (the code truncates mtime to whole seconds)",
                      "the directory's own .abstract is not mutated (it is rendered live, not from the cache)"])
 
